@@ -99,7 +99,7 @@ fn chunk_spaced(rng: &mut Rng, vocab: &[String], depth: u32) -> String {
         };
     }
     let d = depth - 1;
-    match rng.below(46) {
+    match rng.below(47) {
         0..=4 => prim(rng) + " ",
         5 => format!("{}{} ", prim(rng), num(rng)),
         6 => format!("{}{}={} ", prim(rng), num(rng), num(rng)),
@@ -176,6 +176,27 @@ fn chunk_spaced(rng: &mut Rng, vocab: &[String], depth: u32) -> String {
                 format!("\\newInt\\xb \\xb={v} \\the\\xb "), format!("\\dimen2=1.5{v} "), format!("\\dimen2={}\\dimen1 ", num(rng)),
             ];
             format!("{set}{}", uses[rng.below(uses.len() as u64) as usize])
+        }
+        45 => {
+            // alias flows: a command that carries state of its own (allocated variables and arrays, register
+            // aliases, fonts, constants) is copied with \let, leaves its group, is redefined, and is used
+            let make = pick(rng, &[
+                "\\newIntArray\\xa 3 ", "\\newInt\\xa ", "\\countdef\\xa=5 ", "\\toksdef\\xa=5 ", "\\chardef\\xa=65 ",
+                "\\mathchardef\\xa=7 ", "\\font\\xa=fa ", "\\def\\xa{1}", "\\newIntArray\\xa 0 ",
+            ]);
+            let alias = pick(rng, &["\\let\\xb=\\xa ", "\\global\\let\\xb=\\xa ", "{\\let\\xb=\\xa }", "\\let\\xb=\\xa \\let\\xa=\\relax ", ""]);
+            let name = pick(rng, &["\\xb", "\\xb", "\\xa"]);
+            let uses = [
+                format!("{name} 0=1 "), format!("{name}=3 "), format!("\\the{name} 1 "), format!("\\the{name} "), format!("\\advance{name} 2 by 1 "),
+                format!("\\advance{name} by 1 "), format!("{name} "), format!("\\count1={name} "), format!("\\ifnum{name} 0=0 a\\fi "),
+                format!("{name} {}=1 ", num(rng)),
+            ];
+            let u = uses[rng.below(uses.len() as u64) as usize].clone();
+            match rng.below(4) {
+                0 => format!("{{{make}{alias}}}{u}"),
+                1 => format!("{{{make}\\global{alias}}}{u}"),
+                _ => format!("{make}{alias}{u}"),
+            }
         }
         _ => pick(rng, ODD).to_string(),
     }
